@@ -466,6 +466,11 @@ bool Solver::FindSolution(const internal::State& state,
       const internal::State new_state(new_pos, result.new_goals);
       if (seen_states.count(&new_state) > 0 && new_positions.size() > 1) {
         // Cycle detected. We ignore it unless it is the only solution.
+        // (That decision depends on what is currently being solved.)
+        auto in_progress = in_progress_.find(new_state);
+        if (in_progress != in_progress_.end()) {
+          context_level_ = std::min(context_level_, in_progress->second);
+        }
         continue;
       }
       if (RecallOrFindSolution(new_state, seen_states, current_depth)) {
@@ -508,6 +513,11 @@ bool Solver::RecallOrFindSolution(
     } else {
       LOG(INFO) << indent << "Known state: not solvable.";
     }
+    auto in_progress = in_progress_.find(state);
+    if (in_progress != in_progress_.end()) {
+      // This is the provisional entry of a state that is still being solved.
+      context_level_ = std::min(context_level_, in_progress->second);
+    }
     return it->second;
   } else {
     state_cache_misses_ += 1;
@@ -518,11 +528,25 @@ bool Solver::RecallOrFindSolution(
   // that if it's possible to solve this state at this level of the tree, it can
   // also be solved in any of the children.
   solved_states_[state] = true;
+  const int level = static_cast<int>(in_progress_.size());
+  in_progress_[state] = level;
   // Careful! Modifying seen_states would affect other recursive calls, so we
   // need to copy it.
   auto inserted = seen_states.insert(&state);
   bool result = FindSolution(state, seen_states, current_depth);
-  solved_states_[state] = result;
+  in_progress_.erase(state);
+  if (context_level_ <= level) {
+    // The result was derived from the provisional value of this state or of
+    // one of its ancestors on the recursion stack. It is valid for the current
+    // query only: memoizing it would make later answers depend on which
+    // queries were asked before.
+    solved_states_.erase(state);
+    if (context_level_ == level) {
+      context_level_ = kNoContext;
+    }
+  } else {
+    solved_states_[state] = result;
+  }
   if (inserted.second) {
     seen_states.erase(inserted.first);
   }
